@@ -45,8 +45,10 @@ static std::string step(Live &lv, rm::Space &m, const Op &op, std::string &msg) 
         return "";
     }
     bool checked = op.kind == 0;
+    unsigned long foreign0 = foreign_entry_calls();
     RegisterAccess a = checked ? register_set(&lv.t, op.h, to_value(op.vtype, op.raw)) : register_set_unsafe(&lv.t, op.h, to_value(op.vtype, op.raw));
     const char *nm = checked ? "set" : "set_unsafe";
+    if (foreign_entry_calls() != foreign0) { msg = vp::fmt("%s: the validator callback was handed an entry pointer that does not lie in the table's entry array (a copy?): a validator that identifies its register by that pointer answers for the wrong one", nm); return std::string(nm) + ":validator-handed-foreign-entry"; }
     if (bad_handle) {
         if (lv.diff(before) >= 0) { msg = "set with a bad handle changed storage"; return std::string(nm) + ":bad-handle-storage-changed"; }
         if (a.code != REG_ACCESS_NOENTRY) { msg = vp::fmt("%s with handle %u of %zu: %s", nm, op.h, t.regs.size(), code_name(a.code)); return std::string(nm) + ":bad-handle-not-noentry"; }
